@@ -19,6 +19,12 @@ func init() {
 		if r.Bool(0.4) {
 			p := gen.KVParams{Modes: c12modes(), Segs: []int64{96, 128, 144, 192, 256, 512}, MinTx: 3, MaxTx: maxTx, MaxOps: 4, Buckets: 2,
 				TTL: r.Bool(0.3), Deletes: true, Advance: r.Bool(0.3), Views: true, BigP: 0.2, BadEnds: 0.25, Reopen: 0.1}
+			if r.Bool(0.5) {
+				// what a failed commit left behind (records on disk, in-memory
+				// bookkeeping) must not be picked up by a later Merge in the
+				// same process either (key/value programs only: K5)
+				p.Merge = 0.15
+			}
 			pg = gen.KV(r, p)
 		} else {
 			p := gen.MixParams{Modes: []int{0}, Segs: []int64{128, 192, 256, 512}, DS: []string{"kv", "list", "set", "zset"},
@@ -80,7 +86,7 @@ func init() {
 	}
 	Register(&Spec{
 		ID: "C12", Level: "fault_enumeration",
-		Rule: "seeded histories in which transactions end by function error, explicit Rollback, an oversized entry at any position, or one injected I/O fault inside their commit (write error, short write with ENOSPC, sync/msync error with the data durable or lost, open error or truncate error in the rotation the commit triggers); read-only transactions that call mutating APIs; calls on the handle of a finished transaction; " +
+		Rule: "seeded histories in which transactions end by function error, explicit Rollback, an oversized entry at any position, or one injected I/O fault inside their commit (write error, short write with ENOSPC, sync/msync error with the data durable or lost, open error or truncate error in the rotation the commit triggers); read-only transactions that call mutating APIs; calls on the handle of a finished transaction; Merge steps after failed transactions in a quarter of the key/value programs; " +
 			"after every step and after the reopens the full observation must equal the model in which those transactions never happened (for a sync error after a complete write: all-or-nothing), and calls on finished transactions must return errors; fault-free and faulty programs are both generated; non-trivial = at least one transaction ended without committing or a fault fired",
 		Gen: c12gen,
 		Exec: func(seed uint64, p *prog.Program) *RunResult {
